@@ -34,6 +34,31 @@ def num(md, k, d=1.0):
     return float(x) if x is not None else d
 
 
+
+_API_CACHE = {}
+
+
+def api_replay(keys, note):
+    """public-API replay: quick_tidal_dissipation / quick_dual_body_tidal_dissipation at generic points (replay/c11_api.py); reproduces iff one of the named residuals is > 1e-9"""
+    def rp(md):
+        import subprocess, tempfile, json as _json
+        if 'r' not in _API_CACHE:
+            with tempfile.TemporaryDirectory(prefix='verif_c11_') as td:
+                env = dict(os.environ)
+                env['PYTHONPATH'] = REPO
+                p = subprocess.run([replay.VENV_PY, os.path.join(solve.VERIF, 'replay', 'c11_api.py')], capture_output=True, text=True, cwd=td, env=env, timeout=900)
+            if '@@RESULT@@' not in p.stdout:
+                return False, 'c11_api runner failed: %s' % p.stderr[-500:]
+            _API_CACHE['r'] = _json.loads(p.stdout.split('@@RESULT@@')[-1])
+        r = _API_CACHE['r']
+        if not r.get('ok'):
+            return True, 'public API raised: %s' % r.get('error')
+        w = r['worst']
+        bad = {k: w[k] for k in keys if w.get(k, 0.0) > 1e-9}
+        return bool(bad), '%s; public-API residuals (relative): %r' % (note, {k: w.get(k) for k in keys})
+    return rp
+
+
 def replay_single(kind):
     def rp(md):
         G = 6.6743e-11
@@ -187,7 +212,7 @@ def job_kepler_and_assembly():
     for p in ok_paths:
         a = p.result
         results.append(discharge(Obligation('orbital_motion2semi_a: n^2 a^3 == G (M + m)', eq_goal(n * n * a ** 3, G * (M + m)), CTX.facts + p.pc,
-                                            replay=lambda md: (True, 'Kepler III violated by orbital_motion2semi_a'), key='kepler')))
+                                            replay=api_replay(['kepler:function'], 'Kepler III violated by orbital_motion2semi_a'), key='kepler')))
     results.append(discharge(Obligation('orbital_motion2semi_a: valid masses never raise', z3.BoolVal(len(ok_paths) == len(paths) and len(paths) >= 1), [], with_axioms=False, with_dens=False,
                                         replay=lambda md: (True, 'raised on valid input: %r' % [p.exc for p in paths]), key='kepler:noraise')))
     # --- assembly block of quick_tidal_dissipation
@@ -212,10 +237,10 @@ def job_kepler_and_assembly():
     heating = v['m2'] * (v['n'] * v['dM1'] - v['O1'] * v['dO1'])
     dE = v['G'] * v['m1'] * v['m2'] * dr['semi_major_axis_derivative'] / (2 * v['a'] * v['a']) + v['C1'] * v['O1'] * dr['spin_rate_derivative']
     results.append(discharge(Obligation('quick_tidal_dissipation assembly: energy balance holds for the stored da/dt and dspin/dt', eq_goal(dE, -heating), A1,
-                                        replay=lambda md: (True, 'assembly passes arguments in a different order'), key='assembly:single:energy')))
+                                        replay=api_replay(['single:energy', 'single:angmom', 'single:de'], 'assembly passes arguments in a different order'), key='assembly:single:energy')))
     da_ref, de_ref = sfn['semia_eccen_derivatives'](v['a'], v['n'], v['e'], v['m1'], v['dM1'], v['dw1'], v['m2'])
     results.append(discharge(Obligation('quick_tidal_dissipation assembly: stored de/dt == eccentricity_derivative(a,n,e,m_target,dUdM,dUdw,m_host)', eq_goal(dr['eccentricity_derivative'], de_ref), A1,
-                                        replay=lambda md: (True, 'assembly de/dt differs'), key='assembly:single:de')))
+                                        replay=api_replay(['single:de', 'single:angmom'], 'assembly de/dt differs'), key='assembly:single:de')))
     # --- dual assembly: statements from the call of semia_eccen_derivatives_dual to the end
     dfn, _ = loader.load_py(DD, D_NAMES, {'np': NP, 'float_eps': eps})
     fn2 = [x for x in tree.body if isinstance(x, ast.FunctionDef) and x.name == 'quick_dual_body_tidal_dissipation'][0]
@@ -238,7 +263,7 @@ def job_kepler_and_assembly():
     sp2 = sfn['spin_rate_derivative'](v['dO2'], v['C2'], v['m1'])
     dE2 = v['G'] * v['m1'] * v['m2'] * dr2['semi_major_axis_derivative'] / (2 * v['a'] * v['a']) + v['C1'] * v['O1'] * sp1 + v['C2'] * v['O2'] * sp2
     results.append(discharge(Obligation('quick_dual_body_tidal_dissipation assembly: energy balance holds for the stored da/dt', eq_goal(dE2, -heating2), A1,
-                                        replay=lambda md: (True, 'dual assembly passes arguments in a different order'), key='assembly:dual:energy')))
+                                        replay=api_replay(['dual:energy', 'dual:angmom', 'dual:args'], 'dual assembly passes arguments in a different order'), key='assembly:dual:energy')))
     # angular momentum on the dual assembly (zero obliquity: dUdw_i = dUdO_i): catches swapped dUdw arguments
     env3 = dict(env2)
     env3['dissipation_results'] = {'host': {'dUdM': v['dM1'], 'dUdw': v['dO1']}, 'secondary': {'dUdM': v['dM2'], 'dUdw': v['dO2']}}
@@ -249,11 +274,11 @@ def job_kepler_and_assembly():
     sdL = beta * (Fr(1, 2) * v['n'] * v['a'] * dr3['semi_major_axis_derivative'] * s_ * s_ - v['n'] * v['a'] * v['a'] * v['e'] * dr3['eccentricity_derivative'])
     results.append(discharge(Obligation('quick_dual_body_tidal_dissipation assembly: angular-momentum balance holds for the stored da/dt, de/dt (zero obliquity)',
                                         eq_goal(sdL + s_ * (v['C1'] * sp1 + v['C2'] * sp2), Q(0)), A1,
-                                        replay=lambda md: (True, 'dual assembly passes dUdw/dUdM of the two bodies in a different order'), key='assembly:dual:angmom')))
+                                        replay=api_replay(['dual:angmom', 'dual:args', 'dual:energy'], 'dual assembly passes dUdw/dUdM of the two bodies in a different order'), key='assembly:dual:angmom')))
     da_ref2, de_ref2 = dfn['semia_eccen_derivatives'](v['a'], v['n'], v['e'], v['m1'], v['dM1'], v['dw1'], v['m2'], v['dM2'], v['dw2'])
     results.append(discharge(Obligation('quick_dual_body_tidal_dissipation assembly: stored (da/dt, de/dt) == semia_eccen_derivatives_dual(a,n,e,m_host,dUdM_h,dUdw_h,m_sec,dUdM_s,dUdw_s)',
                                         z3.And(eq_goal(dr2['semi_major_axis_derivative'], da_ref2), eq_goal(dr2['eccentricity_derivative'], de_ref2)), A1,
-                                        replay=lambda md: (True, 'dual assembly differs from the reference argument order'), key='assembly:dual:args')))
+                                        replay=api_replay(['dual:args', 'dual:angmom', 'dual:energy'], 'dual assembly differs from the reference argument order'), key='assembly:dual:args')))
     # the semi-major axis used by both quick functions is computed from n with BOTH masses (Kepler III)
     for fname, fnode, masses in (('quick_tidal_dissipation', fn, ('host_mass', 'target_mass')), ('quick_dual_body_tidal_dissipation', fn2, None)):
         stm = [x for x in ast.walk(fnode) if isinstance(x, ast.Assign) and isinstance(x.targets[0], ast.Name) and x.targets[0].id == 'semi_major_axis'
@@ -273,7 +298,7 @@ def job_kepler_and_assembly():
         conds = [eq_goal(nn * nn * Q.of(p_.result) ** 3, G * (Mh + mt)) for p_ in okk]
         results.append(discharge(Obligation('%s: the semi-major axis derived from n satisfies n^2 a^3 == G (M_host + m_target) (both masses)' % fname,
                                             z3.And(*conds) if conds and len(okk) == len(pk) else z3.BoolVal(False), CTX.facts,
-                                            replay=lambda md, fname=fname: (True, '%s computes a from n without the full mass sum' % fname), key='assembly:kepler:%s' % fname)))
+                                            replay=api_replay(['single:kepler' if fname == 'quick_tidal_dissipation' else 'dual:kepler'], '%s computes a from n without the full mass sum' % fname), key='assembly:kepler:%s' % fname)))
     results.append(reach_twin('assembly', A1))
     return {'results': results, 'encoded': loader.ENCODED, 'axioms': CTX.axiom_notes, 'label': 'kepler+assembly'}
 
